@@ -202,4 +202,22 @@ Definition final_verr (A : list (list T)) (D rhs pi : list T) (m : nat) : list T
   map (fun i => nsub K (nsub K (vget rhs i) (fold_left (fun acc c => nadd K acc (nmul K (mget A i c) (vget pi c))) (seq 0 m) (n0 K)))
                        (nmul K (vget D i) (vget pi i))) (seq 0 m).
 
+(** *** solveBilateral (PGS and PLUS): only unconditional rows, P (A+D) ~P P pi = P rhs, pi = 0 off the participating set.
+    PGSImpulseSolver::solveBilateral is the same loop with every participating row as a block of its own and pi0 = 0;
+    PLUSImpulseSolver::solveBilateral hands the packed system to FactorQTZ (LAPACK, outside the model): its result is CERTIFIED by
+    [bilateral_check] (a certificate suffices because the solution is unique for a positive definite participating block:
+    C44_bilateral_certificate_unique). *)
+Definition pgs_bilateral (maxIters : nat) (part : list nat) (A : list (list T)) (D rhs : list T) (tol sor0 : T)
+  : bool * nat * list T * list nat * T :=
+  let m := length A in
+  match part with
+  | [] => (true, O, zeros m, [], n0 K)
+  | _ => pgs_loop maxIters O part A D rhs (zeros m) tol (map (fun k => SUncond [k]) part) sor0 None (zeros m) [] (n0 K)
+  end.
+Definition is_zero (x : T) : bool := nleb K x (n0 K) && nleb K (n0 K) x.
+Definition offpart_zero (part : list nat) (pi : list T) (m : nat) : bool :=
+  forallb (fun i => memb i part || is_zero (vget pi i)) (seq 0 m).
+Definition bilateral_check (tol : T) (part : list nat) (A : list (list T)) (D rhs pi : list T) : bool :=
+  resid_check tol part A D rhs pi part && offpart_zero part pi (length A).
+
 End Model.
